@@ -521,6 +521,11 @@ for _p in PROPS:
         PROPS[_p]['level_note'] = PROPS[_p].get('level_note', '') + (' A bounded native search of the real crate runs next to every quick check (coverage.bounded): it can only add a '
                                                                      'violation with a concrete failing input, never an OK.')
 
+replay_c06.what = replay_c20.what + ('; plus: a file that maintenance has listed vanishes before it is examined (ENOENT injected into the stat of each directory entry in turn, '
+                                     'also for a direct raw_cache::prune): the operation must still succeed')
+replay_c03.what = replay_c18.what + ('; plus the system-call trace of the C20 search, which compares set / ensure / put through a cache from a builder reused after take() with '
+                                     'the same calls through a cache from a fresh builder (the flush before publication must be there)')
+
 NOT_CLAIMED = {
     'C04': 'linearizability under real interleavings needs interference in the filesystem stubs; the contracts built here are sequential (per-operation atomic steps are visible in C11/C01 evidence)',
     'C12': None,
